@@ -318,7 +318,8 @@ static void core_ed25519_all(Ctx &c) {
     crypto_core_ed25519_scalar_add(c.out(32), x, y); crypto_core_ed25519_scalar_sub(c.out(32), x, y); crypto_core_ed25519_scalar_mul(c.out(32), x, y);
     crypto_core_ed25519_scalar_negate(c.out(32), x); crypto_core_ed25519_scalar_complement(c.out(32), x); c.rc(crypto_core_ed25519_scalar_invert(c.out(32), x));
     crypto_core_ed25519_scalar_reduce(c.out(32), c.in(64)); c.rc(crypto_core_ed25519_scalar_is_canonical(c.in(32)));
-    size_t ml = c.len(300), cl = c.len(80); Bytes ctx = c.r.bytes(cl); for (auto &b : ctx) if (!b) b = 1; ctx.push_back(0);
+    size_t ml = c.len(300), cl = c.len(80); if (c.r.below(6) == 0) cl = 255 + (size_t) c.r.below(300);      // contexts longer than 255 bytes take the "oversize DST" path
+    Bytes ctx = c.r.bytes(cl); for (auto &b : ctx) if (!b) b = 1; ctx.push_back(0);
     const char *cp = cl == 0 && c.r.coin() ? nullptr : (const char *) c.inb(ctx); uint8_t *msg = c.in_or_null(ml);
     for (int alg : { 1, 2 }) { c.rc(crypto_core_ed25519_from_string(c.out(32), cp, msg, ml, alg)); c.rc(crypto_core_ed25519_from_string_ro(c.out(32), cp, msg, ml, alg)); }
 }
@@ -332,7 +333,8 @@ static void core_ristretto_all(Ctx &c) {
     crypto_core_ristretto255_scalar_add(c.out(32), x, y); crypto_core_ristretto255_scalar_sub(c.out(32), x, y); crypto_core_ristretto255_scalar_mul(c.out(32), x, y);
     crypto_core_ristretto255_scalar_negate(c.out(32), x); crypto_core_ristretto255_scalar_complement(c.out(32), x); c.rc(crypto_core_ristretto255_scalar_invert(c.out(32), x));
     crypto_core_ristretto255_scalar_reduce(c.out(32), c.in(64)); c.rc(crypto_core_ristretto255_scalar_is_canonical(c.in(32)));
-    size_t ml = c.len(300), cl = c.len(80); Bytes ctx = c.r.bytes(cl); for (auto &b : ctx) if (!b) b = 1; ctx.push_back(0);
+    size_t ml = c.len(300), cl = c.len(80); if (c.r.below(6) == 0) cl = 255 + (size_t) c.r.below(300);
+    Bytes ctx = c.r.bytes(cl); for (auto &b : ctx) if (!b) b = 1; ctx.push_back(0);
     const char *cp = (const char *) c.inb(ctx); uint8_t *msg = c.in_or_null(ml);
     for (int alg : { 1, 2 }) { c.rc(crypto_core_ristretto255_from_string(c.out(32), cp, msg, ml, alg)); c.rc(crypto_core_ristretto255_from_string_ro(c.out(32), cp, msg, ml, alg)); }
 }
